@@ -149,6 +149,19 @@ WitnessFails(e) ==
      \cup Why(Empty(A) \/ ~Empty(W), "empty-for-nonempty")
      \cup Why(Unchanged(e), "operand-changed")
 
+(***************************************************************************)
+(* C07  BDD encodings: every selection that returns a verdict returns      *)
+(* Incl(A,B); "N" = NotImplementedException.  The selections implemented   *)
+(* today must not fail with any other exception; the probes of             *)
+(* unimplemented selections may throw anything but never a wrong verdict.  *)
+(***************************************************************************)
+BddImplemented == {"bu_up", "bu_dr_sim", "td_dr", "td_dro", "td_dr_sim", "td_dro_sim"}
+BddInclFails(e) ==
+  LET A == ToAut(e.A)  B == ToAut(e.B)  exp == TF(Incl(A, B))
+  IN {k \in DOMAIN e.res.v :
+        LET x == e.res.v[k] IN
+        IF k \in BddImplemented THEN x \notin {exp, "N"} ELSE x \in {"T", "F"} /\ x # exp}
+
 Fails(e) ==
   IF e.outcome # "ok" THEN {"outcome:" \o e.outcome}
   ELSE CASE e.op = "incl"      -> InclFails(e)
@@ -162,6 +175,7 @@ Fails(e) ==
          [] e.op = "reindex"   -> ReindexFails(e)
          [] e.op = "translsym" -> TranslSymFails(e)
          [] e.op = "witness"   -> WitnessFails(e)
+         [] e.op = "bddincl"   -> BddInclFails(e)
          [] OTHER              -> {"unknown-op"}
 
 VARIABLE l
